@@ -235,6 +235,9 @@ def law_permutation(bag, rng, items, exhaustive=False):
         cands += [rng.sample(range(n), n) for _ in range(6)]
     cands += [[rng.uniform(-5, 5) for _ in range(n)] for _ in range(4)]                  # random keys
     cands += [[rng.choice([0.0, 1.0, 2.5]) for _ in range(n)] for _ in range(3)]        # keys with ties
+    perm_ = rng.sample(range(n), n)
+    cands += [[e - 5e-9 for e in perm_], [e + 5e-9 for e in perm_], [e * (1 - 1e-12) for e in perm_], [e - 1e-12 for e in perm_],
+              [e + rng.uniform(-9e-9, 9e-9) for e in perm_], [e + rng.uniform(-1e-6, 1e-6) for e in perm_]]   # permutation + noise
     cands += [[float(e) for e in rng.sample(range(n), n)], [e + 0.25 for e in rng.sample(range(n), n)],
               list(np.array(rng.sample(range(n), n))), np.array(rng.sample(range(n), n)),
               [1e308 * rng.choice([-1, 1]) * rng.random() for _ in range(n)], tuple(rng.sample(range(n), n))]
